@@ -193,6 +193,8 @@ impl RollingFileAppender {
         } = builder;
         let directory = directory.as_ref().to_path_buf();
         let now = OffsetDateTime::now_utc();
+        #[cfg(tokio_rs_tracing_verif)]
+        let now = tracing_subscriber::__verif::now().map_or(now, OffsetDateTime::from);
         let (state, writer) = Inner::new(
             now,
             rotation.clone(),
@@ -211,6 +213,11 @@ impl RollingFileAppender {
 
     #[inline]
     fn now(&self) -> OffsetDateTime {
+        #[cfg(all(tokio_rs_tracing_verif, not(test)))]
+        if let Some(now) = tracing_subscriber::__verif::now() {
+            return OffsetDateTime::from(now);
+        }
+
         #[cfg(test)]
         return (self.now)();
 
@@ -243,6 +250,8 @@ impl<'a> tracing_subscriber::fmt::writer::MakeWriter<'a> for RollingFileAppender
 
         // Should we try to roll over the log file?
         if let Some(current_time) = self.state.should_rollover(now) {
+            #[cfg(tokio_rs_tracing_verif)]
+            tracing_subscriber::__verif::point("rolling:should_rollover:true");
             // Did we get the right to lock the file? If not, another thread
             // did it and we can just make a writer.
             if self.state.advance_date(now, current_time) {
@@ -661,6 +670,8 @@ impl Inner {
     /// If this method returns `Some`, we should roll to a new log file.
     /// Otherwise, if this returns we should not rotate the log file.
     fn should_rollover(&self, date: OffsetDateTime) -> Option<usize> {
+        #[cfg(tokio_rs_tracing_verif)]
+        tracing_subscriber::__verif::point("rolling:next_date:load");
         let next_date = self.next_date.load(Ordering::Acquire);
         // if the next date is 0, this appender *never* rotates log files.
         if next_date == 0 {
@@ -680,6 +691,8 @@ impl Inner {
             .next_date(&now)
             .map(|date| date.unix_timestamp() as usize)
             .unwrap_or(0);
+        #[cfg(tokio_rs_tracing_verif)]
+        tracing_subscriber::__verif::point("rolling:next_date:cas");
         self.next_date
             .compare_exchange(current, next_date, Ordering::AcqRel, Ordering::Acquire)
             .is_ok()
